@@ -325,6 +325,7 @@ inductive Event
   | tick (t : Tid)
   | resume (t : Tid)
   | callSoon (p : Pid) (cb : Nat)   -- `p.call_soon(cb)` from code outside any task (RPC handler, harness), between two callbacks
+  | kill (t : Tid)                  -- `kill()` of the process parked in task `t`, from code outside any task
 deriving DecidableEq, Repr, Inhabited
 
 /-- the context of code that runs between two callbacks: empty at top level, the context of the code that called
@@ -345,6 +346,20 @@ def step (σ : State) : Event → State
     | none => { σ with err := some .notReady }
     | some T =>
       if T.parked then { σ with tasks := σ.tasks.set t { T with parked := false } }
+      else { σ with err := some .notReady }
+  | .kill t =>
+    -- `Waiting.interrupt` completes the waiting future with a `KillInterruption`: `Waiting.execute` raises it through
+    -- `_run_task` (the `with` statement pops), `step()` catches it and runs the kill action: `transition_to(KILLED)`
+    if σ.err.isSome then σ else
+    match σ.tasks[t]? with
+    | none => { σ with err := some .notReady }
+    | some T =>
+      if T.parked then
+        match T.code with
+        | .pop p :: _ =>
+          let T' : Task := { T with parked := false, code := .pop p :: hooksOps p (transitionHooks (some .waiting) .killed) }
+          { σ with tasks := σ.tasks.set t T' }
+        | _ => { σ with err := some .notReady }
       else { σ with err := some .notReady }
   | .callSoon p cb =>
     if σ.err.isSome then σ else
